@@ -12,6 +12,16 @@ def main(argv):
         p = subprocess.run([PY, "-c", rec["script"]], env=pyenv(), capture_output=True, text=True)
         print(p.stdout[-3000:], p.stderr[-1500:])
         return 1 if p.returncode != 0 else 0
+    if rec.get("kind") == "pathfork":
+        from .e2 import replay_pathfork
+
+        ok, detail = replay_pathfork(rec)
+        print(json.dumps(dict(inputs=rec["inputs"], ok=ok, detail=str(detail)), indent=1))
+        if ok:
+            print("NOT reproduced: the post-condition holds on these inputs")
+            return 0
+        print("REPRODUCED on the real code: property=%s inputs=%s" % (rec["property"], rec["inputs"]))
+        return 1
     from .harness import real_eval
 
     job = dict(module=rec["module"], scenario=rec["scenario"], kwargs=rec["kwargs"])
